@@ -224,6 +224,7 @@ PARTIAL = {
     "collections.Counter": ({"TypeError"}, "Counter() of unhashable elements"),
     "lqueue.queue": ({"TypeError"}, "queue() of a non-iterable"),
     "issubclass": ({"TypeError"}, "issubclass() of a non-class"),
+    "_postwalk": ({"TypeError"}, "_postwalk() rebuilding maps and sets from walked (possibly unhashable) elements"),
 }
 # calls of a callable looked up by name from the input text (record / type factories): <x>.value(...)
 FACTORY_CALL = ({"TypeError"}, "a factory looked up from the tag, called with the literal's elements")
@@ -352,6 +353,15 @@ def r1_only_syntax_errors_escape(ctx):
                 continue
             if name not in PARTIAL or not c.args and not c.keywords:
                 continue
+            if name == "_postwalk":
+                # rebuilding a map or set can only meet an unhashable element if the walking function
+                # produces new values: it resolves tagged literals (data readers return anything).
+                # A call inside that walking function itself runs under the outer call's handler.
+                walker = next((n for n in ast.walk(fn) if isinstance(n, P.FUNC) and n is not fn and isinstance(c.args[0], ast.Name) and n.name == c.args[0].id), None)
+                produces = walker is not None and any(P.un(x.func) in ("_resolve_tagged_literal", "data_reader") for x in P.calls(walker, into_defs=True))
+                inside_walker = walker is not None and P.contains(walker, c)
+                if not produces or inside_walker:
+                    continue
             excs, descr = PARTIAL[name]
             handlers = _enclosing_handlers(c, fn)
             if name == "issubclass":
@@ -1571,6 +1581,17 @@ def r8_input_is_validated_with_syntax_errors(ctx):
         ctx.ob("C16.R8", f"{RD}::_read_var_macro::(var x) is built from a form tested to be a symbol", RD, nd.line, ok,
                "" if ok else ("the form after #' is read with the symbol reader whatever it starts with: #':a, #'-1 and #''a read as symbols named \":a\", \"-1\", \"'a\"" if raw_sym else "nothing tests that the form after #' is a symbol"),
                witness="(read-string \"#':a\") => (var <symbol named \":a\">); re-reading the span does not give an equal form")
+    # (g) a splicing reader conditional is only dissolved by the collection readers; the one function
+    # every prefix reader gets its operand from rejects it, as read() does at the top level --
+    # otherwise the ReaderConditional object itself ends up inside the quoted / dereferenced form
+    nf = fns.get("_read_next_form")
+    if nf is None:
+        raise AnalysisError("anchor vanished: reader._read_next_form")
+    rejects = any(isinstance(i, ast.If) and ("_should_splice_reader_conditional" in P.un(i.test) or ("ReaderConditional" in P.un(i.test) and "is_splicing" in P.un(i.test)))
+                  and any(isinstance(x, ast.Raise) and "syntax_error" in P.un(x) for s in i.body for x in ast.walk(s)) for i in ast.walk(nf))
+    ctx.ob("C16.R8", f"{RD}::_read_next_form::a splicing reader conditional is not handed to a prefix reader", RD, nf.lineno, rejects,
+           "" if rejects else "the form a prefix reader (quote, deref, unquote, meta, tag, f-string) embeds may be an unprocessed splicing ReaderConditional: the form returned contains a reader-internal object",
+           witness="(read-string \"'#?@(:lpy [1])\") => (quote <ReaderConditional>)")
     if n_c == 0 or n_d == 0:
         raise AnalysisError(f"C16.R8 found no instances for a clause (indexing: {n_c}, raw _read_next: {n_d})")
     ctx.note(f"C16.R8: {n_a} asserts on read values, {n_c} constant subscripts of forms, {n_d} raw _read_next results")
@@ -1649,6 +1670,11 @@ def r9_end_of_input_is_classified_as_such(ctx):
 
 
 SELFTEST = [
+    {"name": "unhashable value out of a reader conditional escapes as TypeError (the repaired defect)", "file": RD, "expect": "C16.R1",
+     "old": "    except TypeError as e:\n        # Resolving a tagged literal may put an unhashable value into a set or a map key\n        raise ctx.syntax_error(f\"Invalid form in reader conditional: {e}\") from None\n",
+     "new": "    except KeyError as e:\n        raise ctx.syntax_error(f\"Invalid form in reader conditional: {e}\") from None\n"},
+    {"name": "prefix readers accept a splicing reader conditional (the repaired defect)", "file": RD, "expect": "C16.R8",
+     "old": "    if _should_splice_reader_conditional(ctx, v):\n        raise ctx.syntax_error(\n            f\"Splicing reader conditional may only appear in a collection; got it as the {owed_by}\"\n        )\n", "new": ""},
     {"name": "the var macro reads whatever follows with the symbol reader (the repaired defect)", "file": RD, "expect": "C16.R8",
      "old": "    s = _read_next_form(ctx, \"var form\")\n    if not isinstance(s, sym.Symbol) and not _is_unquote(s):\n        raise ctx.syntax_error(f\"Expected a symbol in var form; got '{s}'\")\n",
      "new": "    if char_next == \"~\":\n        s = _read_unquote(ctx)\n    else:\n        s = _read_sym(ctx)\n"},
